@@ -55,8 +55,14 @@ func (c *GenCfg) dataMax() int {
 
 func (c *GenCfg) corner(r *Rng) bool { return c.Corner > 0 && r.Intn(100) < c.Corner }
 
+var asciiSamples = []string{"user@example.com", "free5gc", "anonymous@nai.5gc.mnc093.mcc208.3gppnetwork.org", "n3iwf.free5gc.org",
+	"0123456789", "AAAAAAAAAAAAAAAA", "EAP-AKA'", "\x00\x00\x00\x00", "IKEv2", "{\"k\":1}"}
+
 func genData(r *Rng, c *GenCfg, minLen int) Hex {
 	n := r.SmallLen(c.dataMax())
+	if r.Chance(1, 16) && c.dataMax() >= 300 {
+		n = Pick(r, 7, 13, 21, 49, 91, 100, 127, 128, 255, 256, 257) // lengths with unusual divisors
+	}
 	if n < minLen {
 		n = minLen
 	}
@@ -64,10 +70,25 @@ func genData(r *Rng, c *GenCfg, minLen int) Hex {
 		return nil
 	}
 	b := r.Bytes(n)
-	// occasionally make the content look like lengths / type codes
-	if r.Chance(1, 8) {
+	switch r.Intn(24) {
+	case 0, 1, 2: // content that looks like lengths / type codes
 		for i := range b {
 			b[i] = Pick(r, byte(0), 0xff, 0x80, 0x2e, 0x04, 0x10, 0x0f)
+		}
+	case 3, 4: // all octets equal
+		v := Pick[uint8](r, 0x00, 0xff, 0x20, 0x41, 0x30, 0x01, 0x80, 0x7f, 0x55, 0xaa)
+		for i := range b {
+			b[i] = v
+		}
+	case 5: // counter
+		start := r.U8()
+		for i := range b {
+			b[i] = start + byte(i)
+		}
+	case 6, 7: // text
+		t := Pick(r, asciiSamples...)
+		for i := range b {
+			b[i] = t[i%len(t)]
 		}
 	}
 	return b
@@ -331,6 +352,10 @@ func genHeader(r *Rng, m *MsgSpec) {
 	m.ISPI, m.RSPI = r.U64(), r.U64()
 	if r.Chance(1, 8) {
 		m.RSPI = 0
+	}
+	if r.Chance(1, 10) { // values a deployment actually uses: small counters, patterned, top bit set, all ones
+		m.ISPI = Pick[uint64](r, 1, 2, 0x0102030405060708, 0x8000000000000000, 0xffffffffffffffff, 0x00000000ffffffff, uint64(r.Intn(1000)))
+		m.RSPI = Pick[uint64](r, 0, 1, 0x1111111111111111, 0x8000000000000001, 0xffffffffffffffff, uint64(r.Intn(1000)))
 	}
 	m.Major, m.Minor = 2, 0
 	if r.Chance(1, 4) {
